@@ -32,6 +32,13 @@ Fixpoint list_eqb (a b : list N) : bool :=
   | _, _ => false
   end.
 
+(* an arrival script is time-ordered and its end of stream is not earlier than its data *)
+Fixpoint sorted_from (t : N) (l : list chunk) : Prop :=
+  match l with [] => True | c :: r => t <= c_at c /\ sorted_from (c_at c) r end.
+Definition wf_chunks (l : list chunk) (eof : option N) : Prop :=
+  sorted_from 0 l /\ forall c, In c l -> match eof with Some e => c_at c <= e | None => True end.
+Definition wf_side (s : side) : Prop := wf_chunks (s_chunks s) (s_eof s).
+
 (* Prop form used by the theorems *)
 Definition prefix_of (a b : list N) : Prop := exists r, b = a ++ r.
 
@@ -78,6 +85,10 @@ Definition expect (grace start : N) (client server : side) : expectation :=
   mkExp (before_cut start cutU client) (before_cut start cutD server) su sd
         (negb (su || sd) ).
 
-(* detection windows: stages run -> allowed delay *)
+(* Detection delay.  Reading of "dae's own protocol-detection deadlines delay a connection by no more than
+   their detection window": every detection stage arms one deadline with its own window (DNS peek: the
+   DNS-over-TCP first-read timeout; prefetch: the sniffing timeout; sniffer: the sniffing timeout again, counted
+   from the end of the prefetch), and the relay starts no later than the SUM of the windows of the stages that
+   actually ran on this connection.  (So a sniffed connection may wait up to twice the sniffing timeout.) *)
 Definition allowed_delay (dns_window sniff_window : N) (ran_dns ran_prefetch ran_sniff : bool) : N :=
   (if ran_dns then dns_window else 0) + (if ran_prefetch then sniff_window else 0) + (if ran_sniff then sniff_window else 0).
